@@ -576,14 +576,23 @@ class DirectiveIndent(Family):
 		out = []
 		continuing = False
 		for index, line in enumerate(lines[:-1]):
-			if not continuing and line.startswith('#') and '#pragma once' != line:
+			if not continuing and line.startswith('#'):
 				out.append(index)
 			continuing = (continuing or line.startswith('#')) and line.endswith('\\') and not _is_include(line)
 		return out
 
 	def apply(self, lines, site, rng):
 		return _replace(lines, site, rng.choice(['\t', ' ', '\t\t']) + lines[site]), {
-			'group': 'indentedPreprocessor', 'lineno': site + 1, 'kind': 'preprocessor should be aligned to column 0'}
+			'group': 'indentedPreprocessor', 'lineno': site + 1, 'kind': 'preprocessor should be aligned to column 0',
+			'classes': self.site_classes(lines, site, self.current_relpath)}
+
+	def site_classes(self, lines, site, relpath):
+		"""The directive that is mis-indented (the parser treats the directive words differently) and whether it opens a macro."""
+		line = lines[site]
+		word = re.match(r'#\s*(\w*)', line).group(1)
+		if '#pragma once' == line:
+			word = 'pragma-once'
+		return [f'directive:{word}' + (':multi-line' if line.endswith('\\') else '')]
 
 
 class PragmaOnceMissing(Family):
